@@ -14,10 +14,10 @@ for sid in ids:
         p = subprocess.run(["patch", "-s", "-p1", "-i", f"{root}/{sid}/patch.diff"], cwd=d, capture_output=True, text=True)
         if p.returncode != 0:
             rows.append((sid, check, "PATCH DOES NOT APPLY", 0)); continue
-        ev = f"/verif/evidence/{check}.json"; bak = open(ev).read() if os.path.exists(ev) else None
+        evd = tempfile.mkdtemp(prefix="mutev_", dir="/tmp")
         t0 = time.time()
-        r = subprocess.run(["/venv/bin/python", "-m", "vf.check", check, "--tier", "quick"], cwd="/verif", env=dict(os.environ, VERIF_REPO=d), capture_output=True, text=True, timeout=3000)
-        if bak is not None: open(ev, "w").write(bak)
+        r = subprocess.run(["/venv/bin/python", "-m", "vf.check", check, "--tier", "quick"], cwd="/verif", env=dict(os.environ, VERIF_REPO=d, VERIF_EVIDENCE_DIR=evd), capture_output=True, text=True, timeout=3000)
+        shutil.rmtree(evd, ignore_errors=True)
         nv = sum(1 for l in r.stdout.splitlines() if l.startswith("VIOLATION"))
         rows.append((sid, check, f"exit={r.returncode} violations={nv}", int(time.time() - t0)))
     finally:
